@@ -1226,6 +1226,7 @@ func (c *Ctx) ruleStatefulInBuild() {
 	}
 	gate := c.exampleGateField()
 	n := 0
+	perCallee := map[string]int{}
 	for _, f := range c.libFns() {
 		pk := f.Pkg
 		inspectWithStack(f.Decl.Body, func(nd ast.Node, stack []ast.Node) bool {
@@ -1269,7 +1270,13 @@ func (c *Ctx) ruleStatefulInBuild() {
 				return true // the sample is drawn from a scratch schema made here: no shared generator advances
 			}
 			n++
-			key := fmt.Sprintf("%s | %s", f.Name(), exprString(call.Fun))
+			// keyed by what is called, not by the function that happens to hold the call: moving the loop into a
+			// helper is the same finding, a second call of the same function elsewhere is a new one
+			perCallee[cal.FullName()]++
+			key := "once per body | " + shortName(cal.FullName())
+			if k := perCallee[cal.FullName()]; k > 1 {
+				key = fmt.Sprintf("%s #%d", key, k)
+			}
 			if why := c.exampleHiddenFor(f, gate, 0); why != "" {
 				r.Ok("C15-STATEFUL-IN-BUILD", key, "the sample taken here is never shown: "+why, c.pos(call.Pos()))
 				return true
@@ -1507,6 +1514,76 @@ func mayHoldRegexSchema(t types.Type) bool {
 	return false
 }
 
+// madeHere: the root of the receiver is a local that this function made with a constructor (x := New...(..), or a
+// literal wrapped around one) - or a parameter / the receiver of an unexported function every call site of which hands
+// over such a value (two levels).
+func (c *Ctx) madeHere(f *Fn, root ast.Expr, depth int) bool {
+	pk := f.Pkg
+	for {
+		if s2, ok := ast.Unparen(root).(*ast.SelectorExpr); ok && fieldSel(pk, s2) != nil {
+			root = s2.X
+			continue
+		}
+		break
+	}
+	id, ok := ast.Unparen(root).(*ast.Ident)
+	if !ok {
+		return false
+	}
+	obj := pk.TypesInfo.Uses[id]
+	if obj == nil {
+		return false
+	}
+	if idx := paramIndexOf(f, id); idx != -1 && depth < 2 && !paramAssigned(f, id) {
+		sites, all := c.callersOf(f)
+		if !all || len(sites) == 0 {
+			return false
+		}
+		for _, cs := range sites {
+			arg := argFor(cs, idx)
+			if arg == nil || !c.madeHere(cs.g, arg, depth+1) {
+				return false
+			}
+		}
+		return true
+	}
+	fresh := false
+	ast.Inspect(f.Decl.Body, func(m ast.Node) bool {
+		if as, ok := m.(*ast.AssignStmt); ok {
+			for i, l := range as.Lhs {
+				if lid, ok := l.(*ast.Ident); ok && (pk.TypesInfo.Defs[lid] == obj || pk.TypesInfo.Uses[lid] == obj) && i < len(as.Rhs) {
+					// a wrapper made here around a schema made here: &T{JSchema: jschema.New(...)}
+					rhs := ast.Unparen(as.Rhs[i])
+					if u, ok := rhs.(*ast.UnaryExpr); ok && u.Op == token.AND {
+						rhs = ast.Unparen(u.X)
+					}
+					if lit, ok := rhs.(*ast.CompositeLit); ok {
+						for _, el := range lit.Elts {
+							v := el
+							if kv, ok := el.(*ast.KeyValueExpr); ok {
+								v = kv.Value
+							}
+							if cc, ok := ast.Unparen(v).(*ast.CallExpr); ok && strings.Contains(exprString(cc.Fun), "New") {
+								fresh = true
+							}
+						}
+					}
+					if cc, ok := ast.Unparen(as.Rhs[i]).(*ast.CallExpr); ok {
+						name := exprString(cc.Fun)
+						if strings.HasSuffix(name, ".New") || strings.HasPrefix(name, "new") || strings.Contains(name, "New") {
+							fresh = true
+						} else {
+							fresh = false
+						}
+					}
+				}
+			}
+		}
+		return true
+	})
+	return fresh
+}
+
 func (c *Ctx) ruleRulesBeforeLoad() {
 	r := c.R
 	r.Rule("C15-RULES-BEFORE-LOAD", "AddRule is applied only to a schema that the same function has just created (jschema.New / regex.New / a fresh exchange schema), never to a user type fetched from the type table: a schema that another type may already have loaded no longer accepts rules, which made acceptance depend on the declaration order", 2)
@@ -1537,45 +1614,9 @@ func (c *Ctx) ruleRulesBeforeLoad() {
 				}
 				break
 			}
-			fresh := false
-			if id, ok := ast.Unparen(root).(*ast.Ident); ok {
-				obj := pk.TypesInfo.Uses[id]
-				ast.Inspect(f.Decl.Body, func(m ast.Node) bool {
-					if as, ok := m.(*ast.AssignStmt); ok {
-						for i, l := range as.Lhs {
-							if lid, ok := l.(*ast.Ident); ok && (pk.TypesInfo.Defs[lid] == obj || pk.TypesInfo.Uses[lid] == obj) && i < len(as.Rhs) {
-								// a wrapper made here around a schema made here: &T{JSchema: jschema.New(...)}
-								rhs := ast.Unparen(as.Rhs[i])
-								if u, ok := rhs.(*ast.UnaryExpr); ok && u.Op == token.AND {
-									rhs = ast.Unparen(u.X)
-								}
-								if lit, ok := rhs.(*ast.CompositeLit); ok {
-									for _, el := range lit.Elts {
-										v := el
-										if kv, ok := el.(*ast.KeyValueExpr); ok {
-											v = kv.Value
-										}
-										if cc, ok := ast.Unparen(v).(*ast.CallExpr); ok && strings.Contains(exprString(cc.Fun), "New") {
-											fresh = true
-										}
-									}
-								}
-								if cc, ok := ast.Unparen(as.Rhs[i]).(*ast.CallExpr); ok {
-									name := exprString(cc.Fun)
-									if strings.HasSuffix(name, ".New") || strings.HasPrefix(name, "new") || strings.Contains(name, "New") {
-										fresh = true
-									} else {
-										fresh = false
-									}
-								}
-							}
-						}
-					}
-					return true
-				})
-			}
+			fresh := c.madeHere(f, root, 0)
 			if fresh {
-				r.Ok("C15-RULES-BEFORE-LOAD", key, "the schema was created in this function", c.pos(call.Pos()))
+				r.Ok("C15-RULES-BEFORE-LOAD", key, "the schema was created in this function (or handed in, freshly made, by every caller)", c.pos(call.Pos()))
 			} else {
 				r.Bad("C15-RULES-BEFORE-LOAD", key, "rules are added to a schema that was not created here (it may already be loaded by a type declared elsewhere): acceptance depends on the declaration order", c.pos(call.Pos()))
 			}
